@@ -77,6 +77,22 @@ def generate(rng, tier):
     for regime in ("K0", "K4", "K1"):
         for _ in range(nrand):
             cases.append(_rand_history(rng, regime))
+    for regime in ("K0", "K4", "K1"):
+        for _ in range(nrand // 5):
+            # two timelines with the same starts and the same ends, paired differently ([a,c],[b,d] against [a,d],[b,c]),
+            # plus shared segments: they differ, however they were built
+            m = 5 if regime == "K4" else 1
+            a_, b_, c_, d_ = sorted(rng.sample(range(-6, 14), 4))
+            x, y = [[a_ * m, c_ * m], [b_ * m, d_ * m]], [[a_ * m, d_ * m], [b_ * m, c_ * m]]
+            extra = [[v[0] * m, v[1] * m] for v in gen.rand_timeline(rng, "K0", maxn=3, span=14, allow_empty=0.0)]
+            extra = [e_ for e_ in extra if e_ not in x and e_ not in y]
+            ops = [["new", 0, x + extra], ["new", 1, extra + y[::-1]], ["cmp", 0, 1], ["cmp", 1, 0]]
+            if rng.random() < 0.5:
+                # reach the second pairing by edits
+                ops = [["new", 0, x + extra], ["new", 1, extra + x], ["remove", 1, x[0], 0], ["remove", 1, x[1], 0],
+                       ["add", 1, y[0]], ["add", 1, y[1]], ["cmp", 0, 1], ["cmp", 1, 0]]
+            ops += [["read", 0, x + y], ["read", 1, x + y], ["copy", 2, 1, None], ["cmp", 2, 0], ["cmp", 2, 1]]
+            cases.append({"regime": regime, "ops": ops})
     for _ in range(nrand // 3):
         # the K0 shapes on the decimal grid D1 (ticks of 0.1 s: non-dyadic doubles)
         h = _rand_history(rng, "K0")
